@@ -6,7 +6,7 @@ from ..refsem import T, text, variables, hor, X, Y, Z
 INFO = {
     'functions': ['discrete-time offline visitor (as C01)', 'dense-time offline visitor and intersection (as C04)', 'horizon computed by the check (refsem.hor), independent of rtamt.pastifier.stl.horizon'],
     'bounds': {'quick': 'discrete: F1 without unbounded future x bounds, F-fut nestings, sample of F2; N1 in h+1..h+3, extension by 1..3 symbolic samples; '
-                        'dense: every operator without unbounded future, n=2..3 samples + 1..2 extension samples, symbolic time-stamps, tau symbolic with tau+h < end(w1)',
+                        'dense: every operator without unbounded future, n=2..3 samples + 1..2 extension samples, symbolic time-stamps, tau symbolic with tau+h < end(w1); sampling period coarser than the unit of the bounds with traces growing past the number written as the bound; the notation cases of vf/pool.py',
                'thorough': 'F2 exhaustive, F3 seeded, longer traces; dense n=3+2, nested dense formulas'},
     'outside': 'unbounded future operators (excluded by the property)',
     'assumptions': ['h = largest total of upper bounds along a chain of future operators (next = 1 sample)'],
